@@ -1378,6 +1378,10 @@ static int cfg_parse_internal(cfg_t *cfg, int level, int force_state, cfg_opt_t 
 			goto error;
 		}
 
+		/* a comment is an annotation in front of an option, white space anywhere else */
+		if (tok == CFGT_COMMENT && state != 0)
+			continue;
+
 		if (tok == EOF) {
 			if (state != 0) {
 				cfg_error(cfg, _("premature end of file"));
